@@ -384,7 +384,8 @@ class ipv6 (packet_base):
 #    elif nht == self.IGMP_PROTOCOL:
 #      self.next = igmp(raw=raw[offset:offset+length], prev=self)
     elif nht == self.NO_NEXT_HEADER:
-      self.next = None
+      # Nothing to dissect, but octets here are to be passed on (RFC 8200 4.7)
+      self.next = raw[offset:offset+length] or None
     else:
       self.next =  raw[offset:offset+length]
 
